@@ -470,7 +470,7 @@ class Interp(object):
 
     def assign(self, tgt, val, s, stmt):
         if isinstance(tgt, ast.Subscript) and self.is_p(tgt.value, s):
-            k = self.const_int(tgt.slice)
+            k = self.const_int(tgt.slice, s)
             if k != 0:
                 self.err(stmt, 'store to p[%s]' % k)
             s.p0 = val
@@ -613,7 +613,11 @@ class Interp(object):
         rec = s.mut(obj)
         rec.setpos.append((idx, tuple(additional), call.lineno))
 
-    def const_int(self, node):
+    def const_int(self, node, st=None):
+        if st is not None and isinstance(node, ast.Name) and isinstance(
+                st.env.get(node.id), Const) and isinstance(
+                st.env[node.id].value, int):
+            return st.env[node.id].value
         try:
             v = ast.literal_eval(node)
         except Exception:
@@ -655,6 +659,8 @@ class Interp(object):
             for s, pol in ((a, True), (b, False)):
                 if kind == 'isinstance':
                     f = ('isinstance', tuple(arg), pol)
+                elif kind == 'notnone':
+                    f = ('none', not pol)
                 else:
                     f = ('none', pol)
                 s.narrow[idx] = s.narrow.get(idx, ()) + (f,)
@@ -669,10 +675,18 @@ class Interp(object):
             if isinstance(v, Slot):
                 return v.idx, 'isinstance', self.type_names(test.args[1])
         if isinstance(test, ast.Compare) and len(test.ops) == 1 and \
-                isinstance(test.ops[0], ast.Is):
+                isinstance(test.ops[0], (ast.Is, ast.IsNot)) and \
+                isinstance(test.comparators[0], ast.Constant) and \
+                test.comparators[0].value is None:
             v = self.eval1(test.left, st)
             if isinstance(v, Slot):
-                return v.idx, 'none', None
+                return v.idx, 'none' if isinstance(
+                    test.ops[0], ast.Is) else 'notnone', None
+        if isinstance(test, ast.UnaryOp) and isinstance(test.op, ast.Not):
+            inner = self.narrowing_fact(test.operand, st)
+            if inner is not None and inner[1] in ('none', 'notnone'):
+                return inner[0], 'notnone' if inner[1] == 'none' \
+                    else 'none', None
         return None
 
     def truth(self, test, st):
@@ -928,14 +942,14 @@ class Interp(object):
     def e_Subscript(self, node, st):
         if self.is_p(node.value, st):
             if isinstance(node.slice, ast.Slice):
-                lo = self.const_int(node.slice.lower) \
+                lo = self.const_int(node.slice.lower, st) \
                     if node.slice.lower else None
-                hi = self.const_int(node.slice.upper) \
+                hi = self.const_int(node.slice.upper, st) \
                     if node.slice.upper else None
                 idxs = list(range(self.n))[lo:hi]
                 return [(st, Const(tuple(
                     self.slot(i, st) for i in idxs)))]
-            k = self.const_int(node.slice)
+            k = self.const_int(node.slice, st)
             if k < 0:
                 k += self.n
             if not 0 <= k < self.n:
